@@ -59,10 +59,14 @@ def _run_shards(prop: str, jobs: list[dict], tmp: str, max_procs: int, timeout_s
             with open(sp, "w") as fh:
                 json.dump(job, fh)
             errp = os.path.join(tmp, f"stderr{i}.txt")
+            # str hashing (and with it set / dict-of-set iteration order) differs between interpreter runs in production:
+            # every shard gets its own, reproducible, hash seed (shard 0 keeps 0)
+            shard_env = dict(child_env)
+            shard_env["PYTHONHASHSEED"] = str((job["seed"] * 7919 + i * 104729) % 4294967295)
             proc = subprocess.Popen(
                 [env.PYTHON, "-B", "-m", "vf.worker", prop, sp, rp],
                 cwd=env.ROOT,
-                env=child_env,
+                env=shard_env,
                 stdout=subprocess.DEVNULL,
                 stderr=open(errp, "w"),
             )
